@@ -26,6 +26,8 @@ CloseTag == IF Classify(last.z, last.w) = "gap" /\ CloseTransitions(last.z) THEN
 Cls == CASE last.op = "fromLocal" -> Classify(last.z, last.w) \o "/" \o last.dis \o (IF Classify(last.z, last.w) = "gap" THEN (IF GapOf(last.z, last.w) > 3 * H THEN "/gap>3h" ELSE "/gap<=3h") ELSE "") \o CloseTag
          [] last.op = "wall" -> IF \E i \in 1..NT(last.z) : last.z.trans[i].at = last.t THEN "at-transition" ELSE "between"
          [] last.op = "views" -> "views/" \o last.via \o "/" \o (IF \E i \in 1..NT(last.z) : last.z.trans[i].at = last.t THEN "at-transition" ELSE "between")
+         [] last.op = "text" -> "text/" \o last.via \o "/" \o (IF last.unit = 60 THEN "minute" ELSE "second") \o "/" \o last.mode \o "/"
+                                \o (IF OffsetAt(last.z, last.t) # OffsetAt(last.z, RoundedSec(last.t, last.fd, last.unit, last.mode)) THEN "rounds-across-transition" ELSE "same-offset")
          [] last.op = "bag" -> "bag/" \o last.oc.k \o "/" \o last.oo \o "/" \o Classify(last.z, last.w) \o CloseTag
          [] last.op = "fromDate" -> "fromDate/" \o last.tt \o "/" \o Classify(last.z, last.day * 86400) \o (IF CloseTransitions(last.z) THEN "/close-transitions" ELSE "")
          [] last.op = "relto" -> "relativeTo/" \o last.oc.k \o "/" \o Classify(last.z, last.w) \o CloseTag
@@ -34,6 +36,7 @@ CaseOf ==
   CASE last.op = "fromLocal" -> [op |-> "Zoned.fromLocal", cls |-> Cls, args |-> [zone |-> last.z, w |-> last.w, dis |-> last.dis], out |-> last.out]
     [] last.op = "wall" -> [op |-> "Zoned.wall", cls |-> Cls, args |-> [zone |-> last.z, t |-> last.t], out |-> last.out]
     [] last.op = "views" -> [op |-> "Zoned.views", cls |-> Cls, args |-> [zone |-> last.z, t |-> last.t, via |-> last.via], out |-> last.out]
+    [] last.op = "text" -> [op |-> "Zoned.text", cls |-> Cls, args |-> [zone |-> last.z, t |-> last.t, fd |-> last.fd, unit |-> last.unit, mode |-> last.mode, via |-> last.via], out |-> last.out]
     [] last.op = "bag" -> [op |-> "Zoned.fromPartial", cls |-> Cls, args |-> [zone |-> last.z, w |-> last.w, offk |-> last.oc.k, offmin |-> last.oc.o \div 60, dis |-> last.dis, offopt |-> last.oo], out |-> last.out]
     [] last.op = "fromDate" -> [op |-> "Zoned.fromDate", cls |-> Cls, args |-> [zone |-> last.z, day |-> last.day, tt |-> last.tt], out |-> last.out]
     [] last.op = "relto" -> [op |-> "Zoned.relTo", cls |-> Cls, args |-> [zone |-> last.z, w |-> last.w, offk |-> last.oc.k, off |-> last.oc.o], out |-> last.out]
